@@ -56,6 +56,8 @@ ProdTree        == [tree |-> "prod", segs |-> 8192, poolcap |-> 32, cap |-> 2621
 TreesSmall == {Small(2, 2), Small(4, 1), Small(8, 3)}
 TreesMid   == {Small(128, 4)}
 TreesProd  == {ProdTree}
+\* segment counts that are not powers of two: the tree is built for the next power of two
+TreesOdd   == {[tree |-> "shared", segs |-> 3, poolcap |-> 2, cap |-> 128], [tree |-> "shared", segs |-> 6, poolcap |-> 1, cap |-> 256]}
 TreesQuick == TreesSmall \cup TreesProd
 CONSTANT PlanTrees
 
